@@ -66,7 +66,7 @@ func Ob_C15_RandomSP() {
 }
 
 // C02 node.EndBlock: offline detection (and the penalty tick) return normally from every invariant state.
-func Ob_C02_NodeEndBlock() {
+func Ob_C02C19_NodeEndBlock() {
 	w := NewWorld()
 	sym.SetEnumBound("node", nodetypes.NodeKeyPrefix, 2)
 	sym.SetEnumBound("node", nodetypes.FaultKeyPrefix, 1)
